@@ -276,7 +276,7 @@ def check_forecast(p, model, steps, desc, what, exp):
     if not isinstance(p, pd.Series) or [int(i) for i in p.index] != want:
         return [D("forecast_not_from_model_cutoff", "%s %s: index %s expected %s" % (desc, what, list(getattr(p, "index", [])), want))]
     if isinstance(exp, Raised):
-        raise AssertionError("reference forecaster failed: %r" % (exp,))
+        return [D("fresh_forecaster_on_union_raised:%s@%s" % (exp.type, exp.where), "%s %s: %s" % (desc, what, exp.msg))]
     if exp is not None and not close(p, exp):
         k = "update_not_equivalent_to_observing" if model["params_current"] else "parameters_changed_without_update_params"
         return [D(k, "%s %s: got %s expected %s (cutoff %d)" % (desc, what, p.tolist(), exp.tolist(), model["cutoff"]))]
@@ -352,7 +352,7 @@ def oracle_detrender(case, ctx):
     z = gen.build_series([3.5 + 0.25 * j for j in range(5)], start + pos, ik)
     a, b = sut(t.transform, z.copy()), sut(fresh.transform, z.copy())
     if isinstance(b, Raised):
-        raise AssertionError("fresh detrender failed: %r" % (b,))
+        return [D("fresh_detrender_on_union_raised:%s@%s" % (b.type, b.where), b.msg)]
     if isinstance(a, Raised) or not close(a, b):
         discs.append(D("detrender_update_not_equivalent_to_observing", "%s flags=%s: transform %s vs fresh fit on all data %s"
                        % (case["inner"], flags, a if isinstance(a, Raised) else a.tolist(), b.tolist())))
